@@ -456,6 +456,7 @@ type op struct {
 	Sender  int
 	N       int
 	Payload string
+	Cmid    uint64
 	Stats   postStats
 }
 
@@ -615,13 +616,22 @@ func (c *cluster) round(seed int64, r int) {
 			defer wg.Done()
 			lr := mrand.New(mrand.NewSource(seed + int64(i)))
 			for n := 1; n <= perSender; n++ {
-				o := &op{Sender: i, N: n, Payload: fmt.Sprintf("pl-%d-%d-%d", r, i, n)}
+				o := &op{Sender: i, N: n, Payload: fmt.Sprintf("pl-%d-%d-%d", r, i, n), Cmid: nextCm()}
 				ops[i] = append(ops[i], o)
-				o.Stats = c.post(senders[i], "PRIVMSG #c :"+o.Payload, nextCm(), lr.Intn(3), deadline)
+				o.Stats = c.post(senders[i], "PRIVMSG #c :"+o.Payload, o.Cmid, lr.Intn(3), deadline)
 				if !o.Stats.acked {
 					return
 				}
 				time.Sleep(time.Duration(100+lr.Intn(300)) * time.Millisecond)
+				if n%5 == 0 {
+					// the acknowledgement got lost on the way: the bridge posts the same id again (the
+					// first copy has been applied on every healthy node by now)
+					body, _ := json.Marshal(struct {
+						Data            string
+						ClientMessageId uint64
+					}{"PRIVMSG #c :" + o.Payload, o.Cmid})
+					c.do(c.nodes[lr.Intn(3)], "POST", "/robustirc/v1/"+senders[i].Id+"/message", map[string]string{"X-Session-Auth": senders[i].Auth, "Content-Type": "application/json"}, body, 12*time.Second)
+				}
 			}
 		}()
 	}
